@@ -143,7 +143,10 @@ type FuncSpec struct {
 	Panics   bool // the callee may panic; callers get an exceptional edge
 	NoSafety bool // do not emit automatic safety obligations (trusted bodies)
 	NoSafetyKinds []string // safety kinds not checked in this function (documented in the contract)
-	UseLemmas []string // lemmas assumed (as quantified facts) in this function's proof
+	UseLemmas []string // lemmas / global invariants assumed in this function's proof
+	Establishes []string // global invariants this (init) function proves on return
+	Implements []string // interface-method contracts whose ensures this function must also satisfy
+	Split []Expr // case split over the parameters: every obligation is discharged once per case (and once for 'none')
 	Unroll   map[int]int
 	Doc      string
 	File     string
@@ -155,6 +158,7 @@ type SpecFn struct {
 	Params []Param
 	Ret    string
 	Body   Expr // nil => uninterpreted
+	Macro  bool // expanded at each use in the current state (may read the heap)
 	File   string
 	Line   int
 }
@@ -185,7 +189,18 @@ type GhostField struct {
 	Name string
 	Type string // value sort: int | bool | seq | ref
 	Global bool // a single global cell rather than a per-object map
+	Index string // optional second index sort (seq | int): a map per object
 	Guard string // ownership ghost: the frame of this field only covers objects whose guard held at entry
+}
+
+// GlobalInv is an invariant over immutable globals, established by an init
+// function (which proves it as a postcondition) and assumed where used.
+type GlobalInv struct {
+	Name string
+	E    Expr
+	Text string
+	File string
+	Line int
 }
 
 type File struct {
@@ -196,6 +211,10 @@ type File struct {
 	Ghosts    []*GhostField
 	Sentinels []string // immutable, pairwise distinct, non-nil global values (qualified names)
 	Immutable []string // globals never written outside init (checked by scan)
+	ConstFields []string // struct fields written only while constructing a fresh object (scan)
+	OnlyCalledFrom [][2]string // (callee name, caller): mechanical call-site scan
+	ConstTables []string // globals whose composite-literal initialiser is read from the source
+	GlobalInvs []*GlobalInv
 }
 
 func (f *File) Merge(g *File) {
@@ -206,4 +225,8 @@ func (f *File) Merge(g *File) {
 	f.Ghosts = append(f.Ghosts, g.Ghosts...)
 	f.Sentinels = append(f.Sentinels, g.Sentinels...)
 	f.Immutable = append(f.Immutable, g.Immutable...)
+	f.ConstTables = append(f.ConstTables, g.ConstTables...)
+	f.OnlyCalledFrom = append(f.OnlyCalledFrom, g.OnlyCalledFrom...)
+	f.ConstFields = append(f.ConstFields, g.ConstFields...)
+	f.GlobalInvs = append(f.GlobalInvs, g.GlobalInvs...)
 }
